@@ -391,8 +391,9 @@ def rc_check(prop, tier, spec, replay=None):
     # generator-collapse warnings
     for k, floor in spec.get("floors", {}).items():
         got = cov["classes"].get(k, 0)
-        if cov["evaluations"] and got < floor * cov["evaluations"]:
-            msg = "WARNING generator-collapse %s: class %s seen in %d of %d cases (floor %.3f)" % (prop, k, got, cov["evaluations"], floor)
+        denom = cov["counters"].get("scenarios", cov["evaluations"])
+        if denom and got < floor * denom:
+            msg = "WARNING generator-collapse %s: class %s seen in %d of %d cases (floor %.3f)" % (prop, k, got, denom, floor)
             log(msg)
             cov.setdefault("warnings", []).append(msg)
     if not cov["samples"]:
